@@ -128,10 +128,31 @@ fn json_roundtrips<B: Backend>(bk: &str, sum: &mut Summary) {
     }
 }
 
+/// OS strings and paths that are not UTF-8: the Hip wrappers serialise (or refuse to) exactly like OsStr / Path, and read back what std wrote
+fn json_non_utf8<B: Backend>(bk: &str, sum: &mut Summary) {
+    use std::os::unix::ffi::OsStrExt;
+    for raw in [&b"/tmp/caf\xE9.txt"[..], b"\x80", b"ok/\xF0\x9F\xA6", b"plain/ascii", b"caf\xC3\xA9"] {
+        sum.evaluations += 4;
+        let os = std::ffi::OsStr::from_bytes(raw); let pa = std::path::Path::new(os);
+        let mut fail = |what: &str, got: String, exp: String| sum.violation(format!("{{\"what\":{},\"observed\":{},\"expected\":{}}}", jstr(&format!("serde_json {} of non-UTF-8 aware input bk={} bytes={}", what, bk, hex(raw))), jstr(&got), jstr(&exp)));
+        let (e, g) = (serde_json::to_string(pa).map_err(|e| e.to_string()), serde_json::to_string(&HipPath::<B>::from(pa)).map_err(|e| e.to_string()));
+        if e != g { fail("HipPath serialises unlike Path", format!("{:?}", g), format!("{:?}", e)); }
+        if let Ok(js) = &e { match serde_json::from_str::<HipPath<'static, B>>(js) { Ok(h) => if h.as_os_str().as_bytes() != raw { fail("HipPath round trip", hex(h.as_os_str().as_bytes()), hex(raw)) }, Err(er) => fail("HipPath from what Path serialises to", er.to_string(), "Ok".into()) } }
+        let (e, g) = (serde_json::to_string(os).map_err(|e| e.to_string()), serde_json::to_string(&HipOsStr::<B>::from(os)).map_err(|e| e.to_string()));
+        if e != g { fail("HipOsStr serialises unlike OsStr", format!("{:?}", g), format!("{:?}", e)); }
+        if let Ok(js) = &e { match serde_json::from_str::<HipOsStr<'static, B>>(js) { Ok(h) => if h.as_os_str().as_bytes() != raw { fail("HipOsStr round trip", hex(h.as_os_str().as_bytes()), hex(raw)) }, Err(er) => fail("HipOsStr from what OsStr serialises to", er.to_string(), "Ok".into()) } }
+    }
+}
+
 fn borsh_cases<B: Backend>(bk: &str, sum: &mut Summary, w: &mut CaseWriter, seen: &mut std::collections::HashSet<String>) {
     let values: Vec<Vec<u8>> = vec![vec![], b"a".to_vec(), "h\u{e9}llo".as_bytes().to_vec(), vec![b'x'; 23], vec![b'y'; 24], vec![b'z'; 100], vec![0x80, 0xFF], { let mut v = vec![b'q'; 30]; v.push(0xC0); v },
         // truncated multi-byte sequences at the very end (incomplete, not invalid, for an incremental validator)
-        vec![0xC3], b"abc\xF0\x9F".to_vec(), b"ab\xE2\x82".to_vec(), { let mut v = vec![b'z'; 40]; v.extend_from_slice(&[0xF0, 0x9F, 0xA6]); v }, { let mut v = vec![b'a'; 4095]; v.push(0xC3); v }, { let mut v = vec![b'a'; 4095]; v.extend_from_slice("\u{e9}".as_bytes()); v }];
+        vec![0xC3], b"abc\xF0\x9F".to_vec(), b"ab\xE2\x82".to_vec(), { let mut v = vec![b'z'; 40]; v.extend_from_slice(&[0xF0, 0x9F, 0xA6]); v }, { let mut v = vec![b'a'; 4095]; v.push(0xC3); v }, { let mut v = vec![b'a'; 4095]; v.extend_from_slice("\u{e9}".as_bytes()); v },
+        // ill-formed sequences straddling the 1024 / 4096 / 8192 offsets (where an incremental reader would cut), followed by more payload
+        { let mut v = vec![b'a'; 4095]; v.push(0xE2); v.extend_from_slice(b"aaaaaaaaaa"); v }, { let mut v = vec![b'a'; 4094]; v.extend_from_slice(&[0xE2, 0x82]); v.extend_from_slice(b"bbbbb"); v },
+        { let mut v = vec![b'a'; 4093]; v.extend_from_slice(&[0xF0, 0x9F, 0xA6]); v.extend_from_slice(b"zz"); v }, { let mut v = vec![b'a'; 4095]; v.extend_from_slice(&[0xC3, 0x41]); v },
+        { let mut v = vec![b'a'; 1023]; v.push(0xC3); v }, { let mut v = vec![b'a'; 1023]; v.extend_from_slice(&[0xE2, 0x41, 0x41]); v }, { let mut v = vec![b'a'; 8191]; v.extend_from_slice(&[0xF0, 0x9F, 0x41, 0x41]); v },
+        { let mut v = vec![b'a'; 4095]; v.extend_from_slice("\u{20ac}".as_bytes()); v.extend_from_slice(b"ok"); v }, { let mut v = vec![b'a'; 4094]; v.extend_from_slice("\u{1F980}".as_bytes()); v.extend_from_slice(b"ok"); v }];
     let mut inputs: Vec<Vec<u8>> = vec![vec![], vec![1], vec![1, 0, 0], vec![0xff, 0xff, 0xff, 0xff, 1, 2, 3], vec![0, 0, 0, 0x80, 9, 9], vec![0x10, 0x27, 0, 0, 5]];
     for v in &values {
         let enc = borsh::to_vec(&HipByt::<B>::from(&v[..])).unwrap();
@@ -188,7 +209,7 @@ pub fn run(out_dir: &Path, _tier: &str, _seed: u64, _rest: &[String]) {
     let mut wb = CaseWriter::new(out_dir, &format!("codec_borsh_{}", profile()), header, "Eval vm_compute in (bad_indices check_borsh cases 0).\n", 400);
     let mut ws = CaseWriter::new(out_dir, &format!("codec_serde_{}", profile()), header, "Eval vm_compute in (bad_indices check_serde cases 0).\n", 400);
     let mut seen = std::collections::HashSet::new();
-    macro_rules! all { ($b:ty, $n:expr) => { borsh_cases::<$b>($n, &mut sum, &mut wb, &mut seen); serde_cases::<$b>($n, &mut sum, &mut ws, &mut seen); json_roundtrips::<$b>($n, &mut sum); } }
+    macro_rules! all { ($b:ty, $n:expr) => { borsh_cases::<$b>($n, &mut sum, &mut wb, &mut seen); serde_cases::<$b>($n, &mut sum, &mut ws, &mut seen); json_roundtrips::<$b>($n, &mut sum); json_non_utf8::<$b>($n, &mut sum); } }
     all!(Arc, "arc"); all!(Rc, "rc"); all!(Unique, "unique");
     wb.flush(); ws.flush();
     sum.files = wb.files.iter().chain(ws.files.iter()).cloned().collect();
